@@ -16,7 +16,12 @@ import sys, json, time, hashlib, importlib, argparse, itertools, subprocess, tra
 import multiprocessing as mp
 
 ROOT = os.path.dirname(os.path.dirname(os.path.abspath(__file__)))
-REPO = '/repo'
+# The registered checks always run against /repo. VERIF_REPO is used only by tools/detection.py, which evaluates seeded
+# changes in scratch worktrees outside /repo; such runs write their evidence and replays under VERIF_OUT (never /verif).
+REPO = os.environ.get('VERIF_REPO', '/repo').rstrip('/')
+OUT = os.environ.get('VERIF_OUT', ROOT) if REPO != '/repo' else ROOT
+if REPO != '/repo':
+    sys.path.insert(0, REPO)
 
 
 def case_key(case):
@@ -122,7 +127,7 @@ def main(argv=None):
     t0 = time.time()
     import scikit_tt
     if not os.path.realpath(scikit_tt.__file__).startswith(REPO + '/'):
-        print('ERROR scikit_tt imported from %s, not /repo' % scikit_tt.__file__)
+        print('ERROR scikit_tt imported from %s, not %s' % (scikit_tt.__file__, REPO))
         return 2
     mod = importlib.import_module(modname)
     known = load_known(pid)
@@ -236,7 +241,7 @@ def main(argv=None):
     for k, m, c, nd in fails:
         nondet_any |= nd
         by_key.setdefault(k, []).append((m, c))
-    os.makedirs(os.path.join(ROOT, 'replays', pid), exist_ok=True)
+    os.makedirs(os.path.join(OUT, 'replays', pid), exist_ok=True)
     new_keys, known_hit = [], []
     for k, lst in by_key.items():
         lst.sort(key=lambda mc: len(case_key(mc[1])))
@@ -245,7 +250,7 @@ def main(argv=None):
             known_hit.append(k)
             print('KNOWN-FINDING: property=%s %s [%s; %d case(s) this run]' % (pid, known[k]['what'], k, len(lst)))
             continue
-        path = os.path.join(ROOT, 'replays', pid, '%s.json' % h8(k + case_key(c)))
+        path = os.path.join(OUT, 'replays', pid, '%s.json' % h8(k + case_key(c)))
         json.dump({'property': pid, 'tier': tier, 'seed': seed, 'key': k, 'message': m, 'case': c,
                    'cases_with_this_key': len(lst)}, open(path, 'w'), indent=1, default=str)
         new_keys.append(k)
@@ -263,8 +268,8 @@ def main(argv=None):
         'assumptions': list(getattr(mod, 'ASSUMPTIONS', [])), 'wall_s': round(wall, 2),
         'violations': len(new_keys),
     }
-    os.makedirs(os.path.join(ROOT, 'evidence'), exist_ok=True)
-    json.dump(ev, open(os.path.join(ROOT, 'evidence', pid + '.json'), 'w'), indent=1, default=str)
+    os.makedirs(os.path.join(OUT, 'evidence'), exist_ok=True)
+    json.dump(ev, open(os.path.join(OUT, 'evidence', pid + '.json'), 'w'), indent=1, default=str)
     summ = {k: coverage.get(k) for k in ('evaluations', 'distinct_nontrivial', 'oracle_comparisons', 'states',
                                          'transitions', 'traces_validated_against_impl', 'distinct_outcomes',
                                          'exhaustive') if k in coverage}
